@@ -13,11 +13,12 @@ Section Mon.
       && Nat.eqb (c_n (iget (m_img m) (OAct a))) (r_inv (aget (m_acts m) a)) = true ->
     r_fly (aget (m_acts m) a) || is_some (r_ret (aget (m_acts m) a)) = false ->
     peers_ok (m_acts m) a = true ->
+    encl_ok (m_img m) a = true ->
     mstep sh m (EvStart a) =
     Some {| m_img := m_img m; m_reason := m_reason m;
             m_acts := aset (m_acts m) a (start_rec (aget (m_acts m) a)); m_rel := m_rel m |}.
   Proof.
-    intros H1 H2 H3. unfold mstep, mstep_c, start_code. now rewrite H1, H2, H3.
+    intros H1 H2 H3 H4. unfold mstep, mstep_c, start_code. now rewrite H1, H2, H3, H4.
   Qed.
 
   Lemma mstep_end m a o r' :
